@@ -383,6 +383,20 @@ func runC10(c *Ctx, r *Run) {
 			for _, fname := range fns {
 				m, ok := cur[fname]
 				if !ok {
+					// (an unexported helper that changed kind: method <-> plain function; see checkGuardInventory)
+					if alt := sameHelperOtherKind(fname, cur); alt != "" {
+						have := map[string]int{}
+						for k2 := range cur[alt] {
+							have[strings.SplitN(k2, "(", 2)[0]]++
+						}
+						for _, k := range tab[rel][fname] {
+							dk := strings.SplitN(k, "(", 2)[0]
+							okd := have[dk] > 0
+							have[dk]--
+							r.Check("OB-V3", fname+"|"+k, "?", okd, "reject guard "+k+" is present (the helper is now "+alt+": compared by decider)", "reject guard "+k+" recorded for "+fname+" has no counterpart in "+alt)
+						}
+						continue
+					}
 					r.Unresolved("OB-V3", fname)
 					continue
 				}
